@@ -239,7 +239,7 @@ def minor_sweep(V, beh, streams, tag, quick):
             bs[10:12] = [mv & 255, mv >> 8]
             cases.append({"key": b["key"], "cmd": "de", "bytes": bs, "base": 0})
             meta.append((b, mv))
-        if quick and len(seen) >= 2:
+        if len(seen) >= (2 if quick else 4):
             break
     obs = replay(cases, tag + "_minor")
     for (b, mv), o in zip(meta, obs):
